@@ -38,8 +38,8 @@ Definition box_has (d : dims) (b : box) (c : cell) : bool :=
 Definition wr (d : dims) (x : Z) : Z := if x <? 0 then x + d_nt d else if d_nt d <=? x then x - d_nt d else x.
 
 (* colours: the outermost circle (nsc - 1) is black; line 0 is black *)
-Definition white_row (d : dims) (i : Z) : bool := Z.odd (d_nsc d - 1 - i).
-Definition white_line (j : Z) : bool := Z.odd j.
+Definition white_row (d : dims) (i : Z) : bool := (d_nsc d - 1 - i) mod 2 =? 1.
+Definition white_line (j : Z) : bool := j mod 2 =? 1.
 
 Inductive task :=
 | ResGiveCircle (i : Z) | ResGiveRadial (j : Z)
